@@ -1,5 +1,149 @@
-"""Auxiliary artefacts built by setup / on demand: LD_PRELOAD shims, comma locale, harness binaries."""
+"""Auxiliary artefacts built by setup / on demand: comma-decimal locale, LD_PRELOAD shims,
+harness binaries linked against the freshly built libraries (keyed by the tree hash)."""
+import fcntl
+import os
+import subprocess
+
+from . import build
+
+HARNESS = os.path.join(build.VERIF, "harness")
+AUXDIR = os.path.join(build.CACHE, "aux")
+LOCDIR = os.path.join(build.CACHE, "locale")
+
+
+def _lock(name):
+    os.makedirs(AUXDIR, exist_ok=True)
+    f = open(os.path.join(AUXDIR, ".lock-" + name), "w")
+    fcntl.flock(f, fcntl.LOCK_EX)
+    return f
+
+
+def _newer(target, sources):
+    if not os.path.exists(target):
+        return False
+    t = os.path.getmtime(target)
+    return all(os.path.getmtime(s) <= t for s in sources)
+
+
+def ensure_locale():
+    """compile a locale whose decimal point is ',' (none is installed in the image)"""
+    out = os.path.join(LOCDIR, "xx_COMMA")
+    if os.path.exists(os.path.join(out, "LC_NUMERIC")):
+        return LOCDIR
+    with _lock("locale"):
+        if os.path.exists(os.path.join(out, "LC_NUMERIC")):
+            return LOCDIR
+        os.makedirs(LOCDIR, exist_ok=True)
+        cm = os.path.join(LOCDIR, "ASCII.cm")
+        names = {}
+        with open(cm, "w") as f:
+            f.write("<code_set_name> ANSI_X3.4-1968\n<comment_char> %\n<escape_char> /\n<mb_cur_min> 1\n<mb_cur_max> 1\nCHARMAP\n")
+            for i in range(128):
+                f.write("<U%04X> /x%02x CHAR%d\n" % (i, i, i))
+            f.write("END CHARMAP\n")
+
+        def u(chars):
+            return ";".join("<U%04X>" % ord(c) for c in chars)
+
+        def s(text):
+            return '"' + "".join("<U%04X>" % ord(c) for c in text) + '"'
+        up = "ABCDEFGHIJKLMNOPQRSTUVWXYZ"
+        lo = up.lower()
+        dg = "0123456789"
+        punct = "".join(chr(c) for c in range(33, 127) if not chr(c).isalnum())
+        src = os.path.join(LOCDIR, "comma.src")
+        days = ["Sun", "Mon", "Tue", "Wed", "Thu", "Fri", "Sat"]
+        mons = ["Jan", "Feb", "Mar", "Apr", "May", "Jun", "Jul", "Aug", "Sep", "Oct", "Nov", "Dec"]
+        with open(src, "w") as f:
+            f.write("comment_char %\nescape_char /\n")
+            f.write("LC_IDENTIFICATION\ntitle %s\nsource %s\naddress %s\ncontact %s\nemail %s\ntel %s\nfax %s\nlanguage %s\nterritory %s\nrevision %s\ndate %s\n"
+                    % tuple([s("x")] * 11))
+            for cat in ["LC_IDENTIFICATION", "LC_CTYPE", "LC_COLLATE", "LC_TIME", "LC_NUMERIC", "LC_MONETARY", "LC_MESSAGES",
+                        "LC_PAPER", "LC_NAME", "LC_ADDRESS", "LC_TELEPHONE", "LC_MEASUREMENT"]:
+                f.write('category "i18n:2012";%s\n' % cat)
+            f.write("END LC_IDENTIFICATION\n")
+            f.write("LC_CTYPE\nupper %s\nlower %s\ndigit %s\nspace %s\ncntrl %s\npunct %s\nxdigit %s\nblank %s\n" % (
+                u(up), u(lo), u(dg), u(" \t\n\v\f\r"), u("".join(chr(c) for c in list(range(0, 32)) + [127])), u(punct),
+                u(dg + "ABCDEFabcdef"), u(" \t")))
+            f.write("toupper %s\n" % ";".join("(<U%04X>,<U%04X>)" % (ord(a), ord(b)) for a, b in zip(lo, up)))
+            f.write("tolower %s\n" % ";".join("(<U%04X>,<U%04X>)" % (ord(a), ord(b)) for a, b in zip(up, lo)))
+            f.write("END LC_CTYPE\n")
+            f.write("LC_COLLATE\norder_start forward\nUNDEFINED\norder_end\nEND LC_COLLATE\n")
+            f.write("LC_NUMERIC\ndecimal_point %s\nthousands_sep %s\ngrouping 3;3\nEND LC_NUMERIC\n" % (s(","), s(".")))
+            f.write("LC_MONETARY\nint_curr_symbol %s\ncurrency_symbol %s\nmon_decimal_point %s\nmon_thousands_sep %s\n"
+                    "mon_grouping 3;3\npositive_sign %s\nnegative_sign %s\nint_frac_digits -1\nfrac_digits -1\n"
+                    "p_cs_precedes -1\np_sep_by_space -1\nn_cs_precedes -1\nn_sep_by_space -1\np_sign_posn -1\nn_sign_posn -1\n"
+                    "END LC_MONETARY\n" % (s("XXX "), s("X"), s(","), s("."), s(""), s("-")))
+            f.write("LC_TIME\nabday %s\nday %s\nabmon %s\nmon %s\nd_t_fmt %s\nd_fmt %s\nt_fmt %s\nam_pm %s;%s\nt_fmt_ampm %s\nEND LC_TIME\n" % (
+                ";".join(s(d) for d in days), ";".join(s(d) for d in days), ";".join(s(m) for m in mons),
+                ";".join(s(m) for m in mons), s("%a %b %e %H:%M:%S %Y"), s("%m/%d/%y"), s("%H:%M:%S"), s("AM"), s("PM"),
+                s("%I:%M:%S %p")))
+            f.write("LC_MESSAGES\nyesexpr %s\nnoexpr %s\nEND LC_MESSAGES\n" % (s("^[yY]"), s("^[nN]")))
+            f.write("LC_PAPER\nheight 297\nwidth 210\nEND LC_PAPER\n")
+            f.write("LC_NAME\nname_fmt %s\nEND LC_NAME\n" % s("%p%t%g%t%m%t%f"))
+            f.write("LC_ADDRESS\npostal_fmt %s\nEND LC_ADDRESS\n" % s("%a%N%f%N%d%N%b%N%s %h %e %r%N%C-%z %T%N%c%N"))
+            f.write("LC_TELEPHONE\ntel_int_fmt %s\nEND LC_TELEPHONE\n" % s("+%c %a %l"))
+            f.write("LC_MEASUREMENT\nmeasurement 1\nEND LC_MEASUREMENT\n")
+        r = subprocess.run(["localedef", "-c", "-f", cm, "-i", src, out], stdout=subprocess.PIPE, stderr=subprocess.STDOUT)
+        if not os.path.exists(os.path.join(out, "LC_NUMERIC")):
+            raise build.BuildError("localedef failed: " + r.stdout.decode()[-800:])
+    return LOCDIR
+
+
+def ensure_so(name):
+    """LD_PRELOAD shims (plain C, independent of the repo)"""
+    src = os.path.join(HARNESS, name + ".c")
+    out = os.path.join(AUXDIR, name + ".so")
+    if _newer(out, [src]):
+        return out
+    with _lock(name):
+        if _newer(out, [src]):
+            return out
+        r = subprocess.run(["gcc", "-O2", "-fPIC", "-shared", "-o", out + ".tmp", src, "-ldl"], stdout=subprocess.PIPE,
+                           stderr=subprocess.STDOUT)
+        if r.returncode != 0:
+            raise build.BuildError("building %s failed: %s" % (name, r.stdout.decode()[-800:]))
+        os.replace(out + ".tmp", out)
+    return out
+
+
+def ensure_harness(name, variant="std", libs=("dtoolbase",), extra=(), compiler=None, san=None):
+    """Compile harness/<name>.cxx against the libraries of the current tree."""
+    bd = build.ensure(variant)
+    src = os.path.join(HARNESS, name + ".cxx")
+    out = os.path.join(bd, "verif-" + name)
+    deps = [src] + [os.path.join(bd, "lib", "lib%s.a" % l) for l in libs if os.path.exists(os.path.join(bd, "lib", "lib%s.a" % l))]
+    if _newer(out, deps):
+        return out
+    with _lock(name + "-" + variant):
+        if _newer(out, deps):
+            return out
+        cxx = compiler or ("clang++" if variant == "fuzz" else "g++")
+        flags = ["-std=gnu++17", "-O1", "-g", "-D" + build.GUARD]
+        if san is None:
+            san = {"std": [], "asan": ["-fsanitize=address,undefined", "-fno-sanitize-recover=undefined"],
+                   "fuzz": ["-fsanitize=fuzzer,address,undefined", "-fno-sanitize-recover=undefined"]}[variant]
+        inc = []
+        for d in build.include_dirs(variant):
+            inc += ["-I", d]
+        libargs = []
+        for l in libs:
+            a = os.path.join(bd, "lib", "lib%s.a" % l)
+            if os.path.exists(a):
+                libargs.append(a)
+            else:
+                libargs += ["-L" + os.path.join(bd, "lib"), "-l" + l, "-Wl,-rpath," + os.path.join(bd, "lib")]
+        cmd = [cxx] + flags + san + inc + [src, "-o", out + ".tmp"] + libargs + list(extra)
+        r = subprocess.run(cmd, stdout=subprocess.PIPE, stderr=subprocess.STDOUT)
+        if r.returncode != 0:
+            raise build.BuildError("building harness %s failed:\n%s" % (name, r.stdout.decode()[-3000:]))
+        os.replace(out + ".tmp", out)
+    return out
 
 
 def ensure_all():
+    ensure_locale()
+    for so in ("shufflealloc", "faultfs"):
+        if os.path.exists(os.path.join(HARNESS, so + ".c")):
+            ensure_so(so)
     return True
